@@ -162,7 +162,7 @@ func ruleBitList(c *Ctx) {
 					nn := NewNormer(c.P)
 					nn.BindParams(fn, "bl", "bits")
 					nn.Bind[idx] = "j"
-					if eq, _ := CondEquivalent(nn.EdgeCond(b, b.Succs[0]), MustRefCond("j < len(bits)")); eq {
+					if eq, _ := CondEquivalent(nn.LoopCond(b), MustRefCond("j < len(bits)")); eq {
 						body, bitIdx = b.Succs[0], idx
 					}
 				}
